@@ -155,7 +155,7 @@ func VerifC13CreateSigning() {
 	k.SetSigningCount(ctx, prevCount)
 
 	// ---- reference
-	thr := new(big.Int).SetUint64(threshold)
+	thr := big.NewInt(int64(threshold)) // the same integer the code multiplies by (threshold < 2^32)
 	var total [2]*big.Int
 	feeOK, balOK := true, true
 	for d := 0; d < 2; d++ {
